@@ -85,7 +85,7 @@ def validate_instances(ctx, labelled, prop_sig_prefix=""):
             rec["why"] = inst.get("unsupported", "no decomposition")
         out.append(rec)
     files = []
-    per = 60
+    per = 20
     for j in range(0, len(cases), per):
         chunk = cases[j:j + per]
         body = ("From Coq Require Import List QArith Qcanon.\nFrom Polar Require Import Qcx CRing ExpPoly ClosedForm.\n"
